@@ -119,19 +119,23 @@ def IMPORTSRC(pkg, file="lib.xml"):
 
 
 def _flatten_types(doc):
-    """Type documents in definition order with schema-level imports replaced by the types of the component."""
+    """Type documents in definition order with schema-level imports replaced by the types of the component
+    (a component may itself import components: each is read once, the first time it is reached)."""
     out, comps = [], []
-    for td in doc["types"]:
-        if "import" in td:
-            from . import packages
-            if td["import"] not in comps:
-                comps.append(td["import"])
-                out += packages.PKG_DOCS[td["import"]]
-        elif "importsrc" in td:
-            from . import packages
-            out += packages.LIB_DOCS[td["importsrc"]]
-        else:
-            out.append(td)
+
+    def walk(tds):
+        for td in tds:
+            if "import" in td:
+                from . import packages
+                if td["import"] not in comps:
+                    comps.append(td["import"])
+                    walk(packages.PKG_DOCS[td["import"]])
+            elif "importsrc" in td:
+                from . import packages
+                walk(packages.LIB_DOCS[td["importsrc"]])
+            else:
+                out.append(td)
+    walk(doc["types"])
     return out, comps
 
 
